@@ -901,44 +901,3 @@ fn c13_indent_is_depth_times_unit() {
 	kani::cover!((n as usize) * depth > 64);
 	kani::cover!(tabs && n == 2 && depth == 3);
 }
-
-/// `String::from(Value)` (and `Into<String>`) is the compact serialization:
-/// for every one-character string value it yields exactly the escaped literal
-/// that `Display` / `compact_print` yield.
-#[cfg(kani)]
-#[kani::proof]
-#[kani::unwind(10)]
-#[kani::stub(smallvec::SmallVec::try_grow, crate::util::no_grow)]
-fn c08_string_from_value_is_compact() {
-	use json_syntax::Value;
-	let c: char = kani::any();
-	let t: u8 = kani::any();
-	let mut want = Sink::<2>::new();
-	let v = match t {
-		0 => {
-			want.push_all(b"null");
-			Value::Null
-		}
-		1 => {
-			want.push_all(b"true");
-			Value::Boolean(true)
-		}
-		_ => {
-			ref_string_literal(&[c], &mut want);
-			let mut s = json_syntax::String::new();
-			s.push(c);
-			Value::String(s)
-		}
-	};
-	let got: std::string::String = v.into();
-	let g = got.as_bytes();
-	assert!(g.len() == want.len, "C08:string-from-value-is-the-compact-serialization");
-	let j: usize = kani::any();
-	if j < g.len() && j < want.len {
-		assert!(g[j] == want.byte(j), "C08:string-from-value-is-the-compact-serialization");
-	}
-	kani::cover!(t >= 2 && c == '"');
-	kani::cover!(t >= 2 && c == '\u{1f}');
-	kani::cover!(t == 0);
-	core::mem::forget(got);
-}
